@@ -903,3 +903,68 @@ Proof.
   destruct (std_cfb_is_textbook bsz E (supported_pos bsz Hs) (firstn bsz iv) msg Hl) as [Se Sd].
   rewrite Se, Sd. split; reflexivity.
 Qed.
+
+(* ================= the unsafe uint64 xor is the bytewise xor ================= *)
+Definition is_byte (x : N) : Prop := (x < 256)%N.
+
+Lemma land_lxor_distr a b c : N.land (N.lxor a b) c = N.lxor (N.land a c) (N.land b c).
+Proof.
+  apply N.bits_inj. intros n. rewrite !N.land_spec, !N.lxor_spec, !N.land_spec.
+  destruct (N.testbit a n), (N.testbit b n), (N.testbit c n); reflexivity.
+Qed.
+
+Lemma lxor_mod256 a b : (N.lxor a b mod 256 = N.lxor (a mod 256) (b mod 256))%N.
+Proof.
+  change 256%N with (2 ^ 8)%N. rewrite <- !N.land_ones. apply land_lxor_distr.
+Qed.
+
+Lemma lxor_div256 a b : (N.lxor a b / 256 = N.lxor (a / 256) (b / 256))%N.
+Proof.
+  change 256%N with (2 ^ 8)%N. rewrite <- !N.shiftr_div_pow2. apply N.shiftr_lxor.
+Qed.
+
+Lemma byte_cons_mod x L : is_byte x -> ((x + 256 * L) mod 256 = x)%N.
+Proof.
+  intros Hx. rewrite N.mul_comm, N.mod_add by discriminate. apply N.mod_small. exact Hx.
+Qed.
+
+Lemma byte_cons_div x L : is_byte x -> ((x + 256 * L) / 256 = L)%N.
+Proof.
+  intros Hx. rewrite N.mul_comm, N.div_add by discriminate. rewrite N.div_small by exact Hx. reflexivity.
+Qed.
+
+Lemma le_xor_bytewise : forall a b,
+  length a = length b -> Forall is_byte a -> Forall is_byte b ->
+  le_store (length a) (N.lxor (le_load a) (le_load b)) = xorl a b.
+Proof.
+  induction a as [|x a IH]; intros [|y b] Hl Ha Hb; cbn [length] in Hl; try discriminate; [reflexivity|].
+  apply Forall_cons_iff in Ha. destruct Ha as [Hx Ha].
+  apply Forall_cons_iff in Hb. destruct Hb as [Hy Hb].
+  cbn [length le_store le_load xorl].
+  rewrite lxor_mod256, lxor_div256, !byte_cons_mod, !byte_cons_div by assumption.
+  f_equal. apply IH; [lia | assumption | assumption].
+Qed.
+
+Lemma xorl_rev : forall a b, length a = length b -> xorl (rev a) (rev b) = rev (xorl a b).
+Proof.
+  assert (Happ : forall a1 b1 a2 b2, length a1 = length b1 ->
+            xorl (a1 ++ a2) (b1 ++ b2) = xorl a1 b1 ++ xorl a2 b2).
+  { induction a1 as [|x a1 IH]; intros [|y b1] a2 b2 H; cbn [length] in H; try discriminate; [reflexivity|].
+    cbn [app xorl]. rewrite IH by lia. reflexivity. }
+  induction a as [|x a IH]; intros [|y b] Hl; cbn [length] in Hl; try discriminate; [reflexivity|].
+  cbn [rev xorl]. rewrite Happ by (rewrite !rev_length; lia). rewrite IH by lia. reflexivity.
+Qed.
+
+Lemma u64_xor_bytewise s t :
+  length s = 8 -> length t = 8 -> Forall is_byte s -> Forall is_byte t ->
+  xor_u64_le s t = xorl s t /\ xor_u64_be s t = xorl s t.
+Proof.
+  intros Ls Lt Hs Ht. unfold xor_u64_le, xor_u64_be. split.
+  - rewrite <- Ls. apply le_xor_bytewise; [lia | assumption | assumption].
+  - replace 8 with (length (rev s)) by (rewrite rev_length; exact Ls).
+    rewrite le_xor_bytewise.
+    + rewrite xorl_rev by lia. apply rev_involutive.
+    + rewrite !rev_length. lia.
+    + apply Forall_rev. exact Hs.
+    + apply Forall_rev. exact Ht.
+Qed.
